@@ -555,6 +555,20 @@ class Path:
         return ["%s:bb%d" % b for b in self.st.blocks]
 
 
+# arithmetic guard predicates: judged on their own (C20.guard-semantics); their callers use the *call* as the named fact
+# "this product/sum does not wrap", so they stay opaque wherever they are defined (unit, or `static inline` in a header)
+OPAQUE = {"_cbor_safe_to_add", "_cbor_safe_to_multiply", "_cbor_safe_signaling_add", "_cbor_highest_bit"}
+
+
+BOUNDED_RECURSIVE = set()
+
+
+def _is_loader(g):
+    """a byte loader of the loaders module (internal/loaders.c or, as `static inline`, internal/loaders.h)"""
+    import os
+    return os.path.basename(g.file or "").split(".")[0] == "loaders" and g.name.startswith("_cbor_load_")
+
+
 def static_callees(prog, eff, fname):
     """internal (static) functions reachable from fname through direct calls, excluding those on a cycle made of
     internal functions only: implementation details that may be inlined so that extract-/inline-helper refactorings
@@ -562,7 +576,10 @@ def static_callees(prog, eff, fname):
     (an arm of a recursive routine moved into a helper) is safe to inline: the exported call inside it stays opaque."""
     def internal(c):
         g = prog.funcs.get(c)
-        return g is not None and g.internal and c != fname
+        # the byte loaders are the decoder's named primitives (their byte maps are judged on their own: C10.loader); the rules
+        # about what the decoder hands to its callbacks speak of "the result of the loader of width w", so a loader stays a
+        # call wherever it is defined (its unit, or `static inline` in the loaders header)
+        return g is not None and g.internal and c != fname and c not in OPAQUE and not _is_loader(g)
 
     def on_internal_cycle(c):
         seen = set()
@@ -585,6 +602,14 @@ def static_callees(prog, eff, fname):
         for c in eff.summ[x]["callees"]:
             if internal(c) and c not in out:
                 if on_internal_cycle(c):
+                    # recursive helper: not inlined - except a small loop-free one that only calls itself directly (a loader
+                    # that assembles 8 bytes from two 4-byte halves); the executor unrolls that to a nesting of two
+                    g_ = prog.funcs[c]
+                    direct_only = c in eff.summ[c]["callees"] and not any(
+                        internal(d) and d != c and c in eff.transitive_callees(d) for d in eff.summ[c]["callees"])
+                    if direct_only and not g_.back_edges() and len(list(g_.all_insts())) <= 80:
+                        BOUNDED_RECURSIVE.add(c)
+                        out.add(c)
                     continue   # recursive helper: not inlined
                 out.add(c)
                 stack.append(c)
@@ -722,6 +747,11 @@ class Executor:
                                     self.do_call(f, ins, env2, st2, args, depth, name_)
                                     yield from self.exec_from(f, b, i + 1, prev, env2, st2, args, depth)
                             return
+                if callee in self.inline and callee in self.prog.funcs and callee in BOUNDED_RECURSIVE and \
+                        sum(1 if e_.kind == "enter" else -1 for e_ in st.events if e_.kind in ("enter", "leave") and e_.callee == callee) >= 2:
+                    self.do_call(f, ins, env, st, args, depth, callee)      # deeper self-nesting stays an opaque call
+                    i += 1
+                    continue
                 if callee in self.inline and callee in self.prog.funcs:
                     g = self.prog.funcs[callee]
                     actuals = [self.term(f, o, env, args) for o in ins.operands]
@@ -993,7 +1023,17 @@ class Executor:
         if callee.startswith("llvm.memcpy") or callee.startswith("llvm.memmove"):
             n = actuals[2][1] if is_const(actuals[2]) else None
             st.events.append(Event("memcpy", ins, f, actuals, None, len(st.facts), callee, "intrinsic", None, depth))
+            sb_, so_ = ptr_key(actuals[1])
+            cells = []
+            if n is not None and n <= 64 and isinstance(sb_, tuple) and sb_[0] == "alloca":
+                # assignment of a small aggregate built in a local (compound literal): besides the block copy, the
+                # member-wise stores it stands for are recorded, so that `x = (T){a, b}` and `x.f = a; x.g = b` look alike
+                cells = sorted((k[1], v, st.stype.get(k)) for k, v in st.store.items() if k[0] == sb_ and so_ <= k[1] < so_ + n)
             st.memcpy(actuals[0], actuals[1], n)
+            for off_, v_, ty_ in cells:
+                if ty_ is None:
+                    continue
+                st.events.append(Event("store", ins, f, (mkptr(actuals[0], off_ - so_), v_), None, len(st.facts), None, None, ty_, depth))
             env[ins.id] = ("void",)
             return
         ckind = "lib" if callee in self.prog.funcs else "ext"
